@@ -8,7 +8,9 @@ import (
 	"encoding/json"
 	"fmt"
 	"os"
+	"os/exec"
 	"path/filepath"
+	"regexp"
 	"sort"
 	"strconv"
 	"sync"
@@ -49,12 +51,19 @@ type Run struct {
 	knownSeen   map[string]int
 	violations  []violation
 	Assumptions []string
+
+	// part mode (see RunPart): this binary runs as a borrowed phase of another property's check
+	partFile string
+	partKeys *regexp.Regexp
+	partName string
+	ignored  map[string]int
+	parts    map[string]interface{}
 }
 
 type violation struct {
-	Key    string
-	Replay string
-	Desc   string
+	Key    string `json:"key"`
+	Replay string `json:"replay"`
+	Desc   string `json:"desc"`
 }
 
 // Start reads tier/seed from the environment and loads the known findings.
@@ -65,7 +74,23 @@ func Start(id, level string) *Run {
 	}
 	seed, _ := strconv.ParseInt(os.Getenv("VERIF_SEED"), 10, 64)
 	r := &Run{ID: id, Tier: tier, Seed: seed, Level: level, start: time.Now(),
-		known: map[string]Finding{}, knownSeen: map[string]int{}}
+		known: map[string]Finding{}, knownSeen: map[string]int{}, ignored: map[string]int{}, parts: map[string]interface{}{}}
+	if as := os.Getenv("VERIF_AS"); as != "" {
+		// borrowed phase: the harness of property `id` runs for property `as`; only violations whose key
+		// matches VERIF_PART_KEYS are clauses of `as` (everything else is this harness's own business)
+		r.partName = id
+		r.ID = as
+		id = as
+		r.partFile = os.Getenv("VERIF_PART")
+		if r.partFile == "" {
+			Tool("VERIF_AS without VERIF_PART")
+		}
+		rx, err := regexp.Compile(os.Getenv("VERIF_PART_KEYS"))
+		if err != nil {
+			Tool("VERIF_PART_KEYS: %v", err)
+		}
+		r.partKeys = rx
+	}
 	var ff findingsFile
 	if b, err := os.ReadFile(filepath.Join(Root, "known_findings.json")); err == nil {
 		if err := json.Unmarshal(b, &ff); err != nil {
@@ -98,6 +123,13 @@ func Tool(format string, a ...interface{}) {
 func (r *Run) Violation(key, desc string, replay interface{}) bool {
 	r.mu.Lock()
 	defer r.mu.Unlock()
+	if r.partKeys != nil {
+		if !r.partKeys.MatchString(key) {
+			r.ignored[key]++
+			return false
+		}
+		key = r.partName + ":" + key
+	}
 	if _, ok := r.known[key]; ok {
 		r.knownSeen[key]++
 		return false
@@ -108,7 +140,7 @@ func (r *Run) Violation(key, desc string, replay interface{}) bool {
 		}
 	}
 	b, _ := json.MarshalIndent(map[string]interface{}{
-		"property": r.ID, "key": key, "description": desc, "replay": replay,
+		"property": r.ID, "key": key, "description": desc, "replay": replay, "part": r.partName,
 	}, "", " ")
 	h := sha1.Sum(b)
 	dir := filepath.Join(Root, "replays", r.ID)
@@ -151,6 +183,12 @@ func (r *Run) Finish(cov Coverage) {
 		vs = append(vs, map[string]string{"key": v.Key, "replay": v.Replay, "desc": v.Desc})
 	}
 	cov["new_violation_classes"] = vs
+	if r.partFile != "" {
+		r.finishPart(cov, wall)
+	}
+	if len(r.parts) > 0 {
+		cov["borrowed_phases"] = r.parts
+	}
 	out := map[string]interface{}{
 		"property_id": r.ID,
 		"tier":        r.Tier,
@@ -183,6 +221,107 @@ func (r *Run) Finish(cov Coverage) {
 	os.Exit(0)
 }
 
+// finishPart ends a borrowed phase: the coverage and the violations go to the part file, the VIOLATION lines
+// are left to the borrowing check.
+func (r *Run) finishPart(cov Coverage, wall float64) {
+	ign := map[string]int{}
+	for k, v := range r.ignored {
+		ign[k] = v
+	}
+	cov["keys_that_count_here"] = r.partKeys.String()
+	cov["violations_of_other_clauses_ignored"] = ign
+	cov["wall_s"] = wall
+	vs := []violation{}
+	vs = append(vs, r.violations...)
+	b, err := json.MarshalIndent(map[string]interface{}{"coverage": cov, "violations": vs, "assumptions": r.Assumptions}, "", " ")
+	if err != nil {
+		Tool("part marshal: %v", err)
+	}
+	if err := os.WriteFile(r.partFile, b, 0o644); err != nil {
+		Tool("part write: %v", err)
+	}
+	if len(r.violations) > 0 {
+		os.Exit(1)
+	}
+	os.Exit(0)
+}
+
+// RunPart runs another property's harness binary as a phase of this check: the binary explores what it always
+// explores (in the mode the caller selects through env), but reports under this property and only for the
+// violation keys matching keys - the clauses this property's statement shares with the other one. Its coverage is
+// recorded under coverage.borrowed_phases[name]; its violations become this run's violations.
+func (r *Run) RunPart(name, binary, keys string, env ...string) {
+	if binary == "" {
+		Tool("borrowed phase %s: no binary", name)
+	}
+	part := filepath.Join(os.Getenv("VERIF_WORK"), "part."+name+".json")
+	if os.Getenv("VERIF_WORK") == "" {
+		part = filepath.Join(os.TempDir(), fmt.Sprintf("verif.part.%d.%s.json", os.Getpid(), name))
+	}
+	os.Remove(part)
+	cmd := exec.Command(binary)
+	cmd.Env = append(os.Environ(), "VERIF_AS="+r.ID, "VERIF_PART="+part, "VERIF_PART_KEYS="+keys)
+	cmd.Env = append(cmd.Env, env...)
+	cmd.Stdout, cmd.Stderr = os.Stderr, os.Stderr
+	err := cmd.Run()
+	b, rerr := os.ReadFile(part)
+	if rerr != nil {
+		Tool("borrowed phase %s ended without a result (%v)", name, err)
+	}
+	defer os.Remove(part)
+	var pf struct {
+		Coverage    map[string]interface{} `json:"coverage"`
+		Violations  []violation            `json:"violations"`
+		Assumptions []string               `json:"assumptions"`
+	}
+	if err := json.Unmarshal(b, &pf); err != nil {
+		Tool("borrowed phase %s: %v", name, err)
+	}
+	r.mu.Lock()
+	defer r.mu.Unlock()
+	r.parts[name] = pf.Coverage
+	r.violations = append(r.violations, pf.Violations...)
+	for _, a := range pf.Assumptions {
+		r.Assumptions = append(r.Assumptions, "["+name+"] "+a)
+	}
+}
+
+// PartOf returns the name of the borrowed phase a replay file belongs to ("" = this harness's own).
+func PartOf(replayPath string) string {
+	b, err := os.ReadFile(replayPath)
+	if err != nil {
+		Tool("%v", err)
+	}
+	var f struct {
+		Part string `json:"part"`
+	}
+	json.Unmarshal(b, &f)
+	return f.Part
+}
+
+// ReplayPart hands a replay file to the borrowed phase's binary (same filter, same property) and exits with its code.
+func ReplayPart(id, binary, keys, path string, env ...string) {
+	cmd := exec.Command(binary, "--replay", path)
+	cmd.Env = append(os.Environ(), "VERIF_AS="+id, "VERIF_PART_KEYS="+keys, "VERIF_PART=/dev/null")
+	cmd.Env = append(cmd.Env, env...)
+	cmd.Stdout, cmd.Stderr = os.Stdout, os.Stderr
+	if err := cmd.Run(); err != nil {
+		if ee, ok := err.(*exec.ExitError); ok {
+			os.Exit(ee.ExitCode())
+		}
+		Tool("%v", err)
+	}
+	os.Exit(0)
+}
+
+// As returns the property a harness reports under (its own id unless it runs as a borrowed phase).
+func As(own string) string {
+	if as := os.Getenv("VERIF_AS"); as != "" {
+		return as
+	}
+	return own
+}
+
 // Samples keeps the first n distinct samples offered.
 type Samples struct {
 	N    int
@@ -199,4 +338,17 @@ func (s *Samples) List() []interface{} {
 		return []interface{}{}
 	}
 	return s.list
+}
+
+// Counts reports whether a violation key is a clause of the property this binary reports under (always true
+// outside a borrowed phase). Replay paths use it, since they print their verdict without a Run.
+func Counts(key string) bool {
+	if os.Getenv("VERIF_AS") == "" {
+		return true
+	}
+	rx, err := regexp.Compile(os.Getenv("VERIF_PART_KEYS"))
+	if err != nil {
+		Tool("VERIF_PART_KEYS: %v", err)
+	}
+	return rx.MatchString(key)
 }
